@@ -284,6 +284,9 @@ def kstep_sx(st):
     """one step of a Coq chain_path: (code, cps) | (4, code, cps...) for `..step` | (5, a, b, c-or-None) for a slice"""
     if st[0] == 4:
         return '4 ' + kstep_sx(tuple(st[1:]))
+    if st[0] == 7:
+        # an existence filter [?(@ inner)]: (7, [inner steps])
+        return '7 ' + ' '.join('(%s)' % kstep_sx(x) for x in st[1])
     if st[0] == 5:
         parts = ['5'] + ['(%s)' % ' '.join(str(x) for x in t) for t in st[1:3]]
         if st[3] is not None:
